@@ -117,6 +117,7 @@ struct RunCtx {
   int inflight = 0;
   bool waited = false;
   bool failing = false;   // processors may fail (graph modes)
+  ClosureContext* ctx = nullptr;   // the closure of this cycle's Graph::run, once it exists
   std::vector<std::thread> helpers;
   std::vector<GraphVertexClosure> stash;   // STASH processors: completed by the main thread
   uint64_t delay_seed = 0;
@@ -165,6 +166,20 @@ static OptVal read_data(GraphData* d, int type) {
   return type == 1 ? str_val(d->value<std::string>()) : num_val(d->value<uint64_t>());
 }
 
+// An emitter could not acquire the data.  Fine if somebody published it before (a preset of a produced data).  For an
+// external emitter the only competitor while it runs is the flush of its parked producer when that producer is SKIPPED
+// (GraphVertex::run on a closure that has already finished, i.e. after an error): that flush acquires the data first and
+// seals it a moment later, so `ready()` may still be false here, but `finished()` — monotone, and true before that flush
+// started — is true.  Anything else is a lost emit.
+static void lost_emit(int id, const char* who) {
+  if (g->publishes[id] != 0) return;
+  if (strncmp(who, "external", 8) == 0 && g->ctx != nullptr && g->ctx->finished()) {
+    vrt_event("late-external %d", id);
+    return;
+  }
+  vrt_event("ORACLE lost-emit %s could not acquire d%d although nobody published it", who, id);
+}
+
 static void publish(GraphData* d, int id, const OptVal& v, const char* who) {
   int type = g->spec->type_of(id);
   if (strncmp(who, "external", 8) == 0 && d->ready()) {
@@ -176,7 +191,7 @@ static void publish(GraphData* d, int id, const OptVal& v, const char* who) {
   if (type == 1) {
     auto c = d->emit<std::string>();
     if (!c) {
-      if (g->publishes[id] == 0) vrt_event("ORACLE lost-emit %s could not acquire d%d although nobody published it", who, id);
+      lost_emit(id, who);
       return;
     }
     if (++g->publishes[id] > 1) vrt_event("ORACLE dup-publish d%d acquired twice", id);
@@ -186,8 +201,7 @@ static void publish(GraphData* d, int id, const OptVal& v, const char* who) {
   }
   auto c = d->emit<uint64_t>();
   if (!c) {
-    // somebody published it before (a preset of a produced data): fine; otherwise the emit is lost
-    if (g->publishes[id] == 0) vrt_event("ORACLE lost-emit %s could not acquire d%d although nobody published it", who, id);
+    lost_emit(id, who);
     return;
   }
   if (++g->publishes[id] > 1) vrt_event("ORACLE dup-publish d%d acquired twice", id);
@@ -306,6 +320,7 @@ struct HExec : public GraphExecutor {
     vrt_name(&last->_waiting_data_num, sizeof(last->_waiting_data_num), "ctx.wdn");
     vrt_name(&last->_callback, sizeof(last->_callback), "ctx.cb");
     if (hold_for != nullptr) held = GraphVertexClosure(*last, *hold_for);
+    if (g != nullptr) g->ctx = last;
     return c;
   }
   int32_t run(GraphVertex* vertex, GraphVertexClosure&& closure) noexcept override { return inner->run(vertex, std::move(closure)); }
@@ -945,12 +960,66 @@ static void on_crash(int sig) {
   _exit(128 + sig);
 }
 
+// Process-wide lazily initialised state (logger singleton, its first WARNING, id allocators, absl / libstdc++ statics) is
+// touched once here, outside any controlled section: otherwise the first run of a process executes more atomic operations
+// (= scheduling points) than later ones, and the schedule of a seed would depend on what ran before it in the same process.
+static void warm_up_statics() {
+  Built b;
+  b.spec.ndata = 3;
+  VertS v;
+  v.id = 0;
+  DepS d;
+  d.target = 0;
+  v.deps.push_back(d);
+  v.emits = {1};
+  VertS w;
+  w.id = 1;
+  DepS e;
+  e.target = 1;
+  w.deps.push_back(e);
+  w.emits = {2};
+  b.spec.verts = {v, w};
+  b.spec.dtype = {1, 0, 1};
+  InplaceGraphExecutor inplace;
+  b.exec.inner = &inplace;
+  if (!build(b)) return;
+  for (int round = 0; round < 2; ++round) {
+    RunCtx rc;
+    rc.spec = &b.spec;
+    rc.data = b.data;
+    rc.invoked.assign(2, 0);
+    rc.activated.assign(2, 0);
+    rc.publishes.assign(3, 0);
+    rc.helpers.resize(2);
+    g = &rc;
+    OptVal in;
+    in.has = true;
+    in.v = 7;
+    if (round == 1) publish(b.data[0], 0, in, "preset");   // round 0: the input is missing -> activation failure is logged
+    {
+      GraphData* t[1] = {b.data[2]};
+      Closure c = b.graph->run(t, (size_t)1);
+      c.get();
+      c.wait();
+    }
+    g = nullptr;
+    b.graph->reset();
+  }
+  {
+    ThreadPoolGraphExecutor tp;
+    tp.initialize(1, 8);
+    tp.stop();
+  }
+  g_spec = nullptr;
+}
+
 int main(int argc, char** argv) {
   signal(SIGSEGV, on_crash);
   signal(SIGABRT, on_crash);
   std::string mode = argc > 1 ? argv[1] : "graph";
   uint64_t seed0 = argc > 2 ? strtoull(argv[2], 0, 10) : 1;
   int nruns = argc > 3 ? atoi(argv[3]) : 1;
+  warm_up_statics();
   for (int i = 0; i < nruns; ++i) {
     uint64_t seed = seed0 + i;
     if (mode == "dep") run_dep(seed);
